@@ -1,6 +1,8 @@
 """Minimal in-memory S3 client for ONE lock object: strongly consistent, atomic conditional writes
 (IfNoneMatch='*', IfMatch=<etag>), ETags fresh on every write, LastModified from the virtual clock,
-unconditional DELETE.  Every request entry is a yield point of the cooperative scheduler, and the
+unconditional DELETE.  The store keeps LastModified as an instant (virtual ms); the datetime OBJECT a reply
+carries is built by `self.render` = (utcoffset of the aware rendering | None for naive, tzinfo flavour), which
+the run's "env" events change (lockshims.render_last_modified).  Every request entry is a yield point of the cooperative scheduler, and the
 controller can inject a fault into the request the actor is parked at:
 
     None          served
@@ -18,7 +20,7 @@ from typing import Any, Dict, List, Optional, Tuple
 from botocore.exceptions import ClientError
 
 from .coop import Scheduler
-from .lockshims import vdatetime
+from .lockshims import render_last_modified
 
 
 def _err(code: str, status: int, op: str) -> ClientError:
@@ -31,6 +33,7 @@ class FakeS3Lock:
         self.sched = sched
         self.obj: Optional[Dict[str, Any]] = None     # {"body": bytes, "etag": int, "lm": ms}
         self.next_etag = 0
+        self.render: Tuple[Optional[int], str] = (0, "std")   # how replies render LastModified
         # (time_ms, actor, op, cond, fault, outcome, owner_before, lm_before) -- the oracle's ground truth
         self.log: List[Dict[str, Any]] = []
 
@@ -44,6 +47,9 @@ class FakeS3Lock:
         if s is None:
             return None
         return int(s.strip('"')[1:])
+
+    def _lm(self, ms: int) -> Any:
+        return render_last_modified(ms, self.render[0], self.render[1])
 
     def _enter(self, op: str, cond: Any) -> Any:
         return self.sched.yield_point("s3", (op, cond))
@@ -107,7 +113,7 @@ class FakeS3Lock:
             self._record("head", None, None, ("missing",), before)
             raise _err("404", 404, "HeadObject")
         self._record("head", None, None, ("head", self.obj["lm"], self.obj["etag"]), before)
-        return {"LastModified": vdatetime(self.obj["lm"]), "ETag": self.etag_str(self.obj["etag"]),
+        return {"LastModified": self._lm(self.obj["lm"]), "ETag": self.etag_str(self.obj["etag"]),
                 "ContentLength": len(self.obj["body"])}
 
     def get_object(self, Bucket: str, Key: str, **_kw: Any) -> Dict[str, Any]:
@@ -121,7 +127,7 @@ class FakeS3Lock:
             raise _err("NoSuchKey", 404, "GetObject")
         self._record("get", None, None, ("owner", self.obj["body"].decode()), before)
         return {"Body": io.BytesIO(self.obj["body"]), "ETag": self.etag_str(self.obj["etag"]),
-                "LastModified": vdatetime(self.obj["lm"])}
+                "LastModified": self._lm(self.obj["lm"])}
 
     def delete_object(self, Bucket: str, Key: str, **_kw: Any) -> Dict[str, Any]:
         fault = self._enter("delete", None)
